@@ -231,37 +231,48 @@ func (gc GeometryCollection) Similar(g Geom, tolerance float64) bool {
 	}
 }
 
+// ringSimilar determines whether a and b describe the same ring to within
+// tolerance e, wherever each of them starts. A last vertex that repeats the
+// first one (to within the tolerance) closes the ring and is not compared; b
+// may start at any of its vertices.
 func ringSimilar(a, b []Point, e float64) bool {
 	if len(a) != len(b) {
 		return false
 	}
-	ia := minPt(a)
-	ib := minPt(b)
-	for i := 0; i < len(a); i++ {
-		if !pointSimilar(a[ia], b[ib], e) {
-			return false
-		}
-		ia = nextPt(ia, len(a))
-		ib = nextPt(ib, len(b))
+	a, b = openRing(a, e), openRing(b, e)
+	n := len(a)
+	if n != len(b) {
+		return false
 	}
-	return true
+	if n == 0 {
+		return true
+	}
+	// Try every vertex of b that matches the first vertex of a as the start.
+	// (Anchoring each ring at its own smallest vertex does not work: when two
+	// vertices are nearly equally small, a perturbation within the tolerance
+	// changes which one is the smallest.)
+	for s := 0; s < n; s++ {
+		if !pointSimilar(a[0], b[s], e) {
+			continue
+		}
+		match := true
+		for i := 1; i < n; i++ {
+			if !pointSimilar(a[i], b[(s+i)%n], e) {
+				match = false
+				break
+			}
+		}
+		if match {
+			return true
+		}
+	}
+	return false
 }
 
-// ring iterator function
-func nextPt(i, l int) int {
-	if i == l-2 { // Skip the last point that matches the first point.
-		return 0
+// openRing returns r without its closing vertex, if it has one.
+func openRing(r []Point, e float64) []Point {
+	if n := len(r); n >= 2 && pointSimilar(r[0], r[n-1], e) {
+		return r[:n-1]
 	}
-	return i + 1
-}
-
-// find bottom-most of leftmost points, to have fixed anchor
-func minPt(c []Point) int {
-	min := 0
-	for j, p := range c {
-		if p.X < c[min].X || p.X == c[min].X && p.Y < c[min].Y {
-			min = j
-		}
-	}
-	return min
+	return r
 }
